@@ -12,10 +12,10 @@ from mc.ref import expr as rx
 
 ID = "C10"
 LEVEL = "model_checking"
-LEVEL_TEXT = ("Explicit enumeration of `.if` programs (15 condition kinds: 0/1/2/-1 as literal, := constant, macro parameter, constant "
-              "expression, undefined name) x else present/absent x 7 then-bodies (incl. a label used after the .if and a := override) x 4 else-bodies x 4 placements (top level, block, "
+LEVEL_TEXT = ("Explicit enumeration of `.if` programs (18 condition kinds: 0/1/2/-1 as literal, := constant, macro parameter, constant "
+              "expression, undefined name alone and inside an expression) x else present/absent x 7 then-bodies (incl. a label used after the .if and a := override) x 4 else-bodies x 4 placements (top level, block, "
               "macro body, loop body) and `.for` programs (all bound pairs over {-2,0,1,3}^2, bounds from := constants, macro "
-              "parameters and expressions) x 7 bodies (data over v, lda.b v, label + reference, nested loop over v*2+w, conditional, "
+              "parameters and expressions) x 8 bodies (empty expansion, data over v, lda.b v, label + reference, nested loop over v*2+w, conditional, "
               "macro call with v, mixed) x 3 placements x 3 nestings (plain, inside a conditional, inside another loop; thorough: bound pairs over 9 values). Each program is assembled by the real "
               "assembler and compared with (a) the reference expansion and (b) its hand-expanded twin (selected branch spliced in; "
               "`{ v = k ... }` per iteration) run through the same assembler. Tests check one true, one false condition and one loop.")
@@ -43,6 +43,9 @@ COND = {
     "undefined": (S("nosuchname"), 0, "direct"),
     "param0": (N(0), 0, "param"), "param1": (N(1), 1, "param"), "param2": (N(2), 2, "param"), "paramneg": (("b", "-", N(0), N(1)), -1, "param"),
     "expr0": (("b", "-", S("kc"), S("kc")), 0, "direct"), "expr2": (("b", "+", S("kc"), N(1)), 2, "direct"),
+    # a condition that MENTIONS an undefined name is false as a whole (the name is not read as 0)
+    "undefined-plus-1": (("b", "+", S("nosuchname"), N(1)), 0, "direct"), "one-minus-undefined": (("b", "-", N(1), S("nosuchname")), 0, "direct"),
+    "const-plus-undefined": (("b", "+", S("kc"), S("nosuchname")), 0, "direct"),
 }
 THEN = {
     "db": [("data", "db", [N(0x11)])],
@@ -69,6 +72,7 @@ FOR_BODIES = {
     "if": [("if", S("kc"), [("data", "db", [S("vv")])], [("data", "db", [N(0xFF)])])],
     "call": [("call", "nn", [S("vv")])],
     "mixed": [("data", "db", [S("vv")]), ("label", "fl"), ("data", "dl", [S("fl")]), ("data", "db", [("b", "+", S("vv"), N(1))])],
+    "empty": [("if", S("k0"), [("data", "db", [S("vv")])], None)],  # every iteration expands to nothing
 }
 FOR_PLACES = ["top", "block", "macro"]
 VALS = [-2, 0, 1, 3]
@@ -76,7 +80,7 @@ VALS_T = [-3, -2, -1, 0, 1, 2, 3, 5, 8]
 
 
 def bound(tier):
-    return ("IF: 15 condition kinds x else on/off x 7 then x 4 else bodies x 4 placements; FOR: (16 literal bound pairs + 5 symbolic) x 7 "
+    return ("IF: 18 condition kinds x else on/off x 7 then x 4 else bodies x 4 placements; FOR: (16 literal bound pairs + 5 symbolic) x 8 "
             "bodies x 3 placements x 3 nestings" + ("; bound pairs over {-3..3,5,8}^2" if tier == "thorough" else ""))
 
 
@@ -106,7 +110,9 @@ def skeleton(inner, place, macro_defs):
         body.append(("call", "wrap", []))
     elif place == "for":
         body.append(("for", "oo", N(0), N(2), inner))
-    body += [("label", "post"), ("data", "dw", [N(0xEEDD)]), ("data", "dl", [S("post")])]
+    # scoped constructs AFTER the directive: a macro application with an argument and a block with its own label
+    body += [("call", "nn", [("b", "+", S("kc"), N(0x30))]), ("block", [("label", "pblk"), ("data", "dw", [S("pblk")])]),
+             ("label", "post"), ("data", "dw", [N(0xEEDD)]), ("data", "dl", [S("post")])]
     return body
 
 
